@@ -358,3 +358,37 @@ def corpus_marker_variants(limit_len=400):
                             break
                     out.append("\n".join(nl))
     return list(dict.fromkeys(out))
+
+
+def nest_drop():
+    """Containers nested 2-4 deep over {block quote, unordered list, ordered list}, an inner paragraph continued on a second
+    line, then the document DROPS out of the inner containers: optionally a blank line that keeps only the first k quote
+    markers, then a line that continues only an outer prefix of the nesting and starts a leaf block.  This is where end tokens
+    of several containers of different kinds are emitted at one point (closing order, C04) and where the positions of the
+    first block after the drop are computed (C05)."""
+    import itertools
+    kinds = {"Q": ("> ", "> "), "U": ("+ ", "  "), "O": ("1. ", "   ")}
+    out = []
+    for depth in (2, 3, 4):
+        for stack in itertools.product("QUO", repeat=depth):
+            if depth == 4 and stack.count("Q") not in (1, 2):
+                continue
+            first = "".join(kinds[k][0] for k in stack)
+            cont = "".join(kinds[k][1] for k in stack)
+            for l1 in ("-----", "text 1", "-----U", "-----O"):
+                if l1.startswith("-----") and len(l1) > 5:      # a list that starts on the SECOND line inside the innermost container
+                    if depth == 4:
+                        continue
+                    m, pad = kinds[l1[-1]]
+                    head = [first + "-----", cont + m + "list 1", cont + pad + "list 2"]
+                else:
+                    head = [first + l1, cont + "list 1", cont + "list 2"] if l1 == "-----" else [first + l1, cont + "text 2"]
+                nq = stack.count("Q")
+                for keep in range(1, depth):            # the outer prefix that survives the drop
+                    outer = "".join(kinds[k][1] for k in stack[:keep])
+                    blanks = [None] + [">" * q for q in range(0, min(nq, 2) + 1)]
+                    for blank in blanks:
+                        for leaf in ("some text", "```block\n" + outer + "code\n" + outer + "```", "-----", "# h"):
+                            lines = head + ([blank] if blank is not None else []) + [outer + x if i == 0 else x for i, x in enumerate(leaf.split("\n"))]
+                            out.append("\n".join(lines) + "\n")
+    return list(dict.fromkeys(out))
